@@ -354,3 +354,38 @@ Definition nameless_example : Prop :=
   named_ref nl_jar nl_cal [] nl_maps (nl_C3, (x_m1, d_obj)) = Ok nl_setData.
 Lemma nameless_example_holds : nameless_example.
 Proof. unfold nameless_example. repeat split; vm_compute; reflexivity. Qed.
+
+(* ---- bridge chains: the name a delegate receives is looked up in the GIVEN mappings ----
+   add_specialized computes every name with named_ref J cal libs M, M being the mapping set it was handed (the remapper
+   is built before the loop and never sees the clone the loop writes to; C15_add_specialized_exact / C15_bridge_gets_name
+   state the frame with named_ref ... M).  Pinned on a chain A -> B -> C in one class: A = get()Object (named nameA)
+   forwards to B = get()Number (named nameB), itself a bridge that forwards to C = get()Integer.  B, as A's delegate,
+   receives nameA; C receives nameB — the name the GIVEN mappings give to B, not the name written for B a moment
+   earlier — whichever of A and B comes first in the class file. *)
+Definition ch_E : str := [69]. Definition ch_get : str := [103; 101; 116].
+Definition ch_dInt : str := [40; 41; 76; 106; 97; 118; 97; 47; 108; 97; 110; 103; 47; 73; 110; 116; 101; 103; 101; 114; 59].   (* ()Ljava/lang/Integer; *)
+Definition ch_dNum : str := [40; 41; 76; 106; 97; 118; 97; 47; 108; 97; 110; 103; 47; 78; 117; 109; 98; 101; 114; 59].           (* ()Ljava/lang/Number; *)
+Definition ch_dObj : str := [40; 41; 76; 106; 97; 118; 97; 47; 108; 97; 110; 103; 47; 79; 98; 106; 101; 99; 116; 59].           (* ()Ljava/lang/Object; *)
+Definition ch_nameA : str := [110; 97; 109; 101; 65]. Definition ch_nameB : str := [110; 97; 109; 101; 66].
+Definition ch_A : jmeth := mkJM ch_get ch_dObj acc_bridge (Some [IOther; IVirtual (ch_E, (ch_get, ch_dNum)); IOther]).
+Definition ch_B : jmeth := mkJM ch_get ch_dNum acc_bridge (Some [IOther; IVirtual (ch_E, (ch_get, ch_dInt)); IOther]).
+Definition ch_C : jmeth := mkJM ch_get ch_dInt acc_plain (Some [IOther]).
+Definition ch_jar_AB : jar := [mkJC ch_E (Some s_object) [] [ch_A; ch_B; ch_C]].
+Definition ch_jar_BA : jar := [mkJC ch_E (Some s_object) [] [ch_C; ch_B; ch_A]].
+Definition ch_maps : mappings :=
+  mkMappings [s_intermediary; s_named] None
+    [mkClass [Some ch_E; Some ch_E] None []
+       [mkMeth ch_dObj [Some ch_get; Some ch_nameA] None []; mkMeth ch_dNum [Some ch_get; Some ch_nameB] None []]].
+Definition ch_result : mappings :=
+  mkMappings [s_intermediary; s_named] None
+    [mkClass [Some ch_E; Some ch_E] None []
+       [mkMeth ch_dObj [Some ch_get; Some ch_nameA] None [];
+        mkMeth ch_dNum [Some ch_get; Some ch_nameA] None [];
+        mkMeth ch_dInt [Some ch_get; Some ch_nameB] None []]].
+Definition chain_example : Prop :=
+  add_specialized ch_jar_AB ex_cal [] ch_maps = Ok ch_result /\
+  add_specialized ch_jar_BA ex_cal [] ch_maps = Ok ch_result /\
+  named_ref ch_jar_AB ex_cal [] ch_maps (ch_E, (ch_get, ch_dNum)) = Ok ch_nameB /\
+  named_ref ch_jar_AB ex_cal [] ch_maps (ch_E, (ch_get, ch_dObj)) = Ok ch_nameA.
+Lemma chain_example_holds : chain_example.
+Proof. unfold chain_example. repeat split; vm_compute; reflexivity. Qed.
